@@ -105,10 +105,11 @@ def outside_quantifier():
 ALG_NAMES = ["auto", "lu", "chol", "lanczos", "arnoldi"]
 
 
-def mk_alg(name, trace_name, n):
+def mk_alg(name, trace_name, n, tol=None):
     Auto, Cholesky, LU, Lanczos, Arnoldi, Exact = _algs()
+    kw = dict(max_iters=max(n, 1), **({} if tol is None else dict(tol=tol)))
     obj = dict(auto=Auto, lu=LU, chol=Cholesky)[name]() if name in ("auto", "lu", "chol") else \
-        (Lanczos(max_iters=max(n, 1)) if name == "lanczos" else Arnoldi(max_iters=max(n, 1)))
+        (Lanczos(**kw) if name == "lanczos" else Arnoldi(**kw))
     tr = Exact() if trace_name == "exact" else Auto()
     return dict(name=name, trace=trace_name, obj=obj, trace_obj=tr)
 
@@ -121,8 +122,25 @@ def need_fn(name):
     return need
 
 
+def gen_graded(ctx, present=()):
+    """Krylov stream on widely graded spectra: condition numbers 1e3..1e10 (float64; up to 3e3 in float32), determinants far below
+    and above 1, default and explicit stopping tolerances, dense and lazy (Sum, G^H G + jitter I) operators, max_iters = size"""
+    r = ctx.rng
+    cplx = r.random() < 0.35
+    name = r.choice(["lanczos", "lanczos", "arnoldi"])
+    f32 = r.random() < 0.15
+    cond = 10.0 ** (r.uniform(1, 3.4) if f32 else r.uniform(3, 10))
+    psd = True if name == "lanczos" else (r.random() < 0.5 or "krylov_slogdet_abs_of_trace" in present)
+    g = C.RGen(r, krylov=dict(cond=cond, psd=psd, lazy=not f32, f32=f32))
+    depth = r.choice([0, 0, 0, 1, 1, 2])
+    t = g.tree(depth, r.randint(2, 6) if depth == 0 else None, cplx, maxn=4)
+    return dict(recipe=t, alg=name, trace=r.choice(["exact", "exact", "auto"]), tol=r.choice([None, None, 1e-4, 1e-8, 1e-10]), graded=cond)
+
+
 def gen_case(ctx, krylov, present=()):
     r = ctx.rng
+    if krylov == "graded":
+        return gen_graded(ctx, present)
     cplx = r.random() < 0.35
     kname = r.choice(["lanczos", "lanczos", "arnoldi"]) if krylov else None
     # Arnoldi accepts any square operator: general (indefinite, negative-determinant, complex) base nodes are generated as soon as
@@ -134,7 +152,7 @@ def gen_case(ctx, krylov, present=()):
     else:
         name = r.choice(["auto", "auto", "auto", "lu", "lu", "chol"])
     trace = r.choice(["exact", "auto"])
-    return dict(recipe=t, alg=name, trace=trace)
+    return dict(recipe=t, alg=name, trace=trace, tol=(r.choice([None, None, None, 1e-8, 1e-10]) if krylov else None))
 
 
 def tol_of(recipe, logabs):
@@ -149,7 +167,7 @@ def run_impl(case):
     obs = {}
     A = C.build(case["recipe"])
     n = A.shape[0]
-    alg = mk_alg(case["alg"], case["trace"], max(C.rsize(case["recipe"]), 1))
+    alg = mk_alg(case["alg"], case["trace"], max(C.rsize(case["recipe"]), 1), case.get("tol"))
     obs["n"] = n
     try:
         model = C.model_tree(A, alg, need_fn(case["alg"]))
@@ -184,13 +202,16 @@ def coq_flags(present):
 COQ_ALG = dict(auto="AAuto", lu="ALU", chol="AChol", lanczos="AKry", arnoldi="AKry")
 
 
-def eval_coq(name, defs, shard=150):
+HEADER_U = HEADER.replace("C07_Exec.", "C07_Exec C07_Unary.")
+
+
+def eval_coq(name, defs, shard=150, header=None):
     """defs: list of (listname, typ, checker, [terms]); returns dict listname -> failing indices, or error"""
     res = {ln: [] for ln, _, _, _ in defs}
     jobs = []
     for ln, typ, chk, terms in defs:
         for s in range(0, len(terms), shard):
-            body = HEADER + f"Definition cases : list {typ} := [\n" + ";\n".join(terms[s:s + shard]) + "].\n"
+            body = (header or HEADER) + f"Definition cases : list {typ} := [\n" + ";\n".join(terms[s:s + shard]) + "].\n"
             body += f"Eval vm_compute in (length cases, failing {chk} 0 cases).\n"
             jobs.append((ln, s, f"c07_{name}_{ln}_{s // shard}", body))
     outs = core.coqc_many([(j[2], j[3]) for j in jobs], 900)
@@ -208,20 +229,24 @@ def run(ctx):
     present = {f["flag"] for f in fnd if f["present"]}
     n_struct = ctx.budget(420, 5000)
     n_kry = ctx.budget(80, 800)
+    n_grad = ctx.budget(70, 600)
     stats = dict(skipped_oracle_hyp=0, expected_assert=0, flag_attributed=0,
-                 oracle_verified=0, krylov_cases=0, arnoldi_branch_cut_skipped=0, krylov_complex_trace_skipped=0, krylov_complex_trace_oracle_verified=0, krylov_hyp_failed=0)
+                 oracle_verified=0, krylov_cases=0, arnoldi_branch_cut_skipped=0, krylov_complex_trace_skipped=0, krylov_complex_trace_oracle_verified=0, krylov_hyp_failed=0,
+                 graded_cases=0, krylov_e2e_checked=0, krylov_e2e_unconverged_regime=0, unary_nodes_checked=0, unary_near_tie=0, unary_nonfinite=0,
+                 unary_oracle_error=0, unary_ritz_values_masked=0, unary_ritz_values_between_cutoff_and_tol=0)
     mism = []
     cases, obs = [], []
     tries = 0
-    while len(cases) < n_struct + n_kry and tries < 20 * (n_struct + n_kry):
+    n_all = n_struct + n_kry + n_grad
+    while len(cases) < n_all and tries < 20 * n_all:
         tries += 1
-        kry = len(cases) >= n_struct
+        kry = False if len(cases) < n_struct else (True if len(cases) < n_struct + n_kry else "graded")
         c = gen_case(ctx, kry, present)
         N = C.rsize(c["recipe"])
         if N == 0 or N > 12:
             continue
         D = C.dense(c["recipe"])
-        if np.linalg.cond(D) > 1e5:
+        if np.linalg.cond(D) > (1e13 if kry == "graded" else 1e5):
             continue
         o = run_impl(c)
         if "skip" in o:
@@ -240,8 +265,8 @@ def run(ctx):
         obs.append(o)
 
     # ---- independent oracle and Coq terms
-    impl_terms, orc_terms, kterms = [], [], []
-    idx_impl, idx_k = [], []
+    impl_terms, orc_terms, kterms, uterms = [], [], [], []
+    idx_impl, idx_k, idx_u = [], [], []
     info = []
     for i, (c, o) in enumerate(zip(cases, obs)):
         D = C.dense(c["recipe"])
@@ -265,26 +290,84 @@ def run(ctx):
         if kry:
             tol_l, tol_s = max(tol_l, 1e-6 * max(1, abs(l.real))), max(tol_s, 1e-6)
         # python-level oracle comparison
-        ofail = []
-        if abs(l.imag) > 0:
-            ofail.append("logabs has an imaginary part")
-        if abs(l.real - ologabs) > tol_l:
-            ofail.append(f"logabs {l.real} != {ologabs}")
-        if real and not kry and (s.imag != 0 or s.real not in (1.0, -1.0)):
-            ofail.append(f"sign {s} is not +-1")
-        if abs(s - osign) > tol_s:
-            ofail.append(f"sign {s} != {osign}")
-        if o["logdet"] != o["logabs"] and not (np.isnan(o["logdet"]) and np.isnan(o["logabs"])):
-            ofail.append(f"logdet {o['logdet']} != slogdet[1] {o['logabs']}")
+        def oracle_cmp(tol_l, tol_s):
+            ofail = []
+            if abs(l.imag) > 0:
+                ofail.append("logabs has an imaginary part")
+            if not abs(l.real - ologabs) <= tol_l:
+                ofail.append(f"logabs {l.real} != {ologabs}")
+            if real and not kry and (s.imag != 0 or s.real not in (1.0, -1.0)):
+                ofail.append(f"sign {s} is not +-1")
+            if not abs(s - osign) <= tol_s:
+                ofail.append(f"sign {s} != {osign}")
+            if o["logdet"] != o["logabs"] and not (np.isnan(o["logdet"]) and np.isnan(o["logabs"])):
+                ofail.append(f"logdet {o['logdet']} != slogdet[1] {o['logabs']}")
+            return ofail
+        ofail = oracle_cmp(tol_l, tol_s)
         rec["ofail"] = ofail
         if kry:
             stats["krylov_cases"] += 1
             kd = [d for d in C.decs(o["model"]) if d["which"] == "kry"]
+            # the matrix-function rule itself (unary.py): model of the Ritz-value cut-off and of the contraction, on the oracle data of this node
+            for d in kd:
+                u = d.get("unary")
+                if u is None or "error" in u:
+                    stats["unary_oracle_error"] += 1
+                elif "lanczos_exact_trace_uneven_breakdown_nan" in present and c["alg"] == "lanczos" and d["uneven"]:
+                    pass
+                elif u["nonfinite"]:
+                    stats["unary_nonfinite"] += 1
+                elif u["near_tie"]:
+                    stats["unary_near_tie"] += 1
+                elif not np.isfinite(d["kt"]):
+                    mism.append(dict(oracle_fail=True, case=c, got=dict(trace_log=str(d["kt"])), what="trace(log(A, alg)) is not finite although every Ritz value above the cut-off has a finite logarithm"))
+                else:
+                    uterms.append(C.coq_ucase(u, d["kt"], 2e-4 if f32 else 1e-9))
+                    idx_u.append((i, len(idx_u)))
+                    stats["unary_nodes_checked"] += 1
+                    stats["unary_ritz_values_masked"] += u["masked"]
+                    stats["unary_ritz_values_between_cutoff_and_tol"] += u["below_tol"]
             if "arnoldi_log_branch_cut_mixed" in present and c["alg"] == "arnoldi" and any(d["branch_cut"] for d in kd):
                 stats["arnoldi_branch_cut_skipped"] += 1   # region spoiled by a recorded flag: not generated while it is present
                 rec["kskip"] = True
                 continue
-            hyp_bad = [d for d in kd if not (np.isfinite(d["kt"]) and abs(np.exp(d["kt"]) - np.linalg.det(d["dense"].astype(np.complex128))) <= 1e-6 * abs(np.linalg.det(d["dense"].astype(np.complex128))) * (1e3 if f32 else 1))]
+            # end-to-end comparison (is trace(log(A, alg)) the log-determinant of the node?) only where the Krylov factorisation with
+            # stopping tolerance tau is expected to have converged: Lanczos stops as soon as beta_k < tau * beta_1, which on a graded
+            # spectrum happens when the remaining eigenvalues are below tau * |lambda|_max (measured on the unchanged tree: error <= 1e-9
+            # for cond * tau <= 1e-3, growing to O(1) for cond * tau >= 10; Arnoldi: error ~ 10 * cond * tau)
+            tau = c.get("tol") or 1e-6
+            epsd = 1.2e-7 if f32 else 2.3e-16
+
+            def e2e_tol(d):
+                cn = float(np.linalg.cond(d["dense"].astype(np.complex128)))
+                d["cond"] = cn
+                if not c.get("graded"):
+                    return 1e-6 * (1e3 if f32 else 1)
+                if cn * tau > (1e-3 if c["alg"] == "lanczos" else 1e-10):
+                    return None
+                return 1e-6 * (1e3 if f32 else 1) + 1e3 * epsd * cn * d["n"]
+
+            def hyp_err(d):
+                if not np.isfinite(d["kt"]):
+                    return float("inf"), float("inf")
+                ls, ll = np.linalg.slogdet(d["dense"].astype(np.complex128))
+                return abs(d["kt"].real - ll), abs(np.exp(1j * d["kt"].imag) - ls)
+            tols = [e2e_tol(d) for d in kd]
+            rec["kry_nodes"] = kd
+            if c.get("graded"):
+                stats["graded_cases"] += 1
+            if any(t_ is None for t_ in tols):
+                stats["krylov_e2e_unconverged_regime"] += 1
+                rec["e2e_skip"] = True
+                hyp_bad = []
+            else:
+                stats["krylov_e2e_checked"] += 1
+                hyp_bad = [d for d, t_ in zip(kd, tols) if not (hyp_err(d)[0] <= t_ and hyp_err(d)[1] <= t_)]
+                if c.get("graded"):   # the tree's logabs inherits the nodes' conditioning (Kronecker / BlockDiag exponents <= 12)
+                    ofail = oracle_cmp(max(tol_l, 12 * sum(tols)), max(tol_s, 12 * sum(tols)))
+            if rec.get("e2e_skip"):
+                ofail = [x for x in ofail if x.startswith("logdet ")]
+            rec["ofail"] = ofail
             if hyp_bad:
                 # cola's own trace(log(A, Lanczos|Arnoldi)) is not the log-determinant of the node: the property fails here unless a recorded flag explains it
                 stats["krylov_hyp_failed"] += 1
@@ -321,9 +404,24 @@ def run(ctx):
                          f"{coq_obs(False, rec['real'], os_, ol, 2 * tol_l + 1e-13, max(tol_s, 1e-7))})")
         idx_orc.append(i)
     res, err = eval_coq(f"s{ctx.seed}", [("impl", "case", "check", impl_terms), ("orc", "case", "check", orc_terms), ("kry", "kcase", "kcheck", kterms)])
+    if not err:
+        resu, err = eval_coq(f"s{ctx.seed}u", [("una", "ucase", "ucheck", uterms)], shard=12, header=HEADER_U)
+        if not err:
+            res["una"] = resu["una"]
     if err:
         mism.append(dict(oracle_fail=False, harness_error=err))
-        res = dict(impl=[], orc=[], kry=[])
+        res = dict(impl=[], orc=[], kry=[], una=[])
+    for j in sorted(set(res.get("una", []))):
+        i = idx_u[j][0]
+        c, o, rec = cases[i], obs[i], info[i]
+        errs = []
+        for d in rec.get("kry_nodes", []):
+            ll = np.linalg.slogdet(d["dense"].astype(np.complex128))[1]
+            errs.append(float(abs(d["kt"].real - ll)) if np.isfinite(d["kt"]) else float("inf"))
+        mism.append(dict(oracle_fail=bool(errs and max(errs) > 1.0), case=c, got=dict(sign=str(o.get("sign")), logabs=str(o.get("logabs"))), expected=rec["oracle"],
+                         node_logabs_error_vs_numpy=errs,
+                         what="trace(log(A, Lanczos|Arnoldi), Exact) differs from the model of LanczosUnary/ArnoldiUnary._matmat on the same Krylov factorisation and "
+                              "eigen-decomposition (Ritz values are dropped only below 10*eps*max|ritz|)"))
     fail_impl = {idx_impl[j] for j in res["impl"]}
     fail_orc = {idx_orc[j] for j in res["orc"]}
     fail_k = {idx_k[j] for j in res["kry"]}
